@@ -18,7 +18,8 @@
   — also for `R'` consisting of spaces only (three or more): CommonMark does not strip then, the crate does.
 
   PROPERTY theorems
-    `strip_char`, `strip_padded`, `strip_unpadded`, `strip_lines`   what the content is
+    `strip_char`, `padW_char`, `strip_padded`, `strip_unpadded`, `normalise_docOf`, `strip_lines`
+                                                           what the content is (section 1)
     `doc_span_multiline_sp`, `doc_span_multiline`          the document `docOf Ls` — lines `Ls`, `n ≥ 1` of them,
                                                            forming ONE top-level paragraph (`SpanLines`: first
                                                            character `ParaFirst`, every further line `ContLine`) that
@@ -30,8 +31,11 @@
     `doc_span_multiline_render_sp`, `doc_span_multiline_render`
                                                            `render` / `xrender`, exactly: `<p>pre<code>` escaped content
                                                            `</code>post</p>` LF
-    `doc_span_padded_lines_render`                         the padded payload `T = t₁ ⏎ … ⏎ t_m` spelled out: the
-                                                           content is `t₁ ␠ t₂ ␠ … ␠ t_m` (`spaced`)
+    `spanLines_padded`, `doc_span_padded_lines`, `doc_span_padded_lines_render`
+                                                           the padded payload `T = t₁ ⏎ … ⏎ t_m` spelled out
+                                                           (`paddedLines pre k ts post`): hypotheses on the pieces;
+                                                           the content is `t₁ ␠ t₂ ␠ … ␠ t_m` (`spaced ts`), its range
+                                                           the bytes of the payload
     `doc_span_raw_sp`, `doc_span_raw`, `doc_span_raw_render_sp`, `doc_span_raw_render`
                                                            ONE-line paragraphs with the general span, top level
     `doc_span_unpadded`, `doc_span_unpadded_render`        … `R` not both starting and ending with a space: the content
@@ -39,17 +43,30 @@
     `doc_span_raw_nested_sp`, `doc_span_raw_nested`, `doc_span_raw_render_nested_sp`, `doc_span_raw_render_nested`
                                                            the one-line paragraph inside any wrappers (block quotes,
                                                            list items), as in `Props/C11Span.lean`
-  Built from `C11M.parseInline_raw` (Lemmas/C11SpanMultiInline.lean: the inline parser on `pre ++ span ++ post` for
-  the general span and ANY table with a total translation), `Block.parseBlocks_lines` (Lemmas/C11SpanMultiPara.lean:
-  the block pass on an `n`-line top-level paragraph, table `idTable 0 Ls`), `C11M.idTable_translate` (that table
-  translates every offset to itself), Lemmas/C11SpanMultiDoc.lean (join, sourcepos, render for nodes with any
-  ranges) and the serializer part of Lemmas/C11SpanDoc.lean.
+  Built from `CodePair.span_raw_ctx` / `C11M.parseInline_raw` (Lemmas/C11SpanMultiInline.lean: the code-span rule and
+  the inline parser on `pre ++ span ++ post` for the general span and ANY table with a total translation),
+  `Block.parseBlocks_lines` (Lemmas/C11SpanMultiPara.lean: the block pass on an `n`-line top-level paragraph —
+  `lazyScan` over the continuation lines in `lheading` and `paragraph`, every rule silent on a `ContLine` — with the
+  exact table `idTable 0 Ls`), `C11M.idTable_translate` (that table translates every offset to itself),
+  Lemmas/C11SpanMultiDoc.lean (join, sourcepos, render for nodes with any ranges) and the serializer part of
+  Lemmas/C11SpanDoc.lean.
+
+  What the model (= the crate, checked on every example of section 6) does with a multi-line span:
+    * the block structure comes first: the lines of the span are paragraph continuation lines; a line that a block
+      rule claims in look-ahead (`- y`, `===`, a fence, a blank line) ends the paragraph and the span with it
+      (witnesses in section 6) — hence the hypothesis `ContLine` per line;
+    * where the paragraph goes on, EVERY line ending inside the span becomes ONE space and nothing else changes:
+      a continuation line's indentation stays in the content (CommonMark strips it), blanks in front of the line
+      feed stay (no hard break inside a span), a line indented by 4 or more columns is payload whatever it holds;
+    * the stripping test runs AFTER that, so a line feed directly behind the opening run / in front of the closing
+      run counts as a padding space.
 
   OPEN (see the end of the file): the multi-line paragraph inside containers; paragraphs with further lines in
   front of the opening line / behind the closing line (soft breaks in `pre` / `post`).
 -/
 import MdIt.Props.C11Span
 import MdIt.Lemmas.C11SpanMultiDoc
+import MdIt.Lemmas.C11SpanMultiPara
 set_option linter.unusedSimpArgs false
 set_option linter.unusedVariables false
 
@@ -494,5 +511,511 @@ theorem doc_span_raw_render_nested (hsp : cfg.sourcepos = false) (x : Bool) :
     (doc_span_raw_render_nested_sp cfg pre R post k h htab c1 c2 hic hq bpre bpost hbc hbp w hw hch hmn hsize x)
 
 end nested
+
+/-! ## 4. MULTI-line paragraphs -/
+
+/-- the lines `Ls` form ONE top-level paragraph, and that paragraph reads `pre ++ `ᵏ⁺¹ R `ᵏ⁺¹ ++ post`: `pre`, `post`
+    plain text (so they hold no line feed: the span opens on the first line and closes on the last) -/
+structure SpanLines (Ls : List (List Char)) (pre R post : List Char) (k : Nat) : Prop where
+  /-- the first line starts with a character no block rule but `paragraph` claims -/
+  first : ∃ c r rest, Ls = (c :: r) :: rest ∧ ParaFirst c
+  /-- the lines are lines: no LF, no CR inside -/
+  noTerm : ∀ l ∈ Ls, NoTerm l
+  /-- every further line continues the paragraph (`ContLine`: not blank; indented by 4 or more columns, or starting
+      — behind its indentation — with a `ParaFirst` character and not a setext underline) -/
+  cont : ∀ l ∈ Ls.tail, ContLine l
+  /-- the text of the paragraph -/
+  doc : docOf Ls = pre ++ rawSpan k R ++ post
+  plainPre : PlainTxt pre
+  plainPost : PlainTxt post
+  /-- the last line does not end with a blank -/
+  postEnd : ∀ c ∈ post.getLast?, Inline.isSpTab c = false
+  /-- `R` (line feeds allowed): not empty, no backtick at either end, no run of `k + 1` backticks -/
+  raw : CodePair.RawOk '`' k R
+
+theorem docOf_cons_cons (c : Char) (r : List Char) (rest : List (List Char)) :
+    ∃ t, docOf ((c :: r) :: rest) = c :: t := by
+  cases rest with
+  | nil => exact ⟨r, by simp [docOf, Lines.joinLines]⟩
+  | cons y ys => exact ⟨_, by simp only [docOf, Lines.joinLines, List.cons_append]; rfl⟩
+
+section lines
+variable {Ls : List (List Char)} {pre R post : List Char} {k : Nat} (h : SpanLines Ls pre R post k)
+include h
+
+/-- `pre` is not empty: it starts with the first line's first character -/
+theorem SpanLines.pre_cons : ∃ c r, pre = c :: r ∧ ParaFirst c := by
+  obtain ⟨c, r, rest, hL, hc⟩ := h.first
+  obtain ⟨t, ht⟩ := docOf_cons_cons c r rest
+  have hd := h.doc
+  rw [hL, ht] at hd
+  cases hp : pre with
+  | nil =>
+    obtain ⟨r0, hr0⟩ := rawSpan_head k R
+    rw [hp, hr0] at hd
+    simp only [List.nil_append, List.cons_append, List.cons.injEq] at hd
+    exact absurd hd.1 hc.2.2.1
+  | cons d t' =>
+    rw [hp] at hd
+    simp only [List.cons_append, List.cons.injEq] at hd
+    exact ⟨d, t', rfl, hd.1 ▸ hc⟩
+
+theorem SpanLines.trim :
+    Inline.trimSrc (pre ++ rawSpan k R ++ post) = (0, InlineOps.byteLen (pre ++ rawSpan k R ++ post)) := by
+  obtain ⟨c, r, hp, hc⟩ := h.pre_cons
+  exact trim_of_ends pre _ post c r hp hc (fun a => getLast?_rawSpan a k R) h.postEnd
+
+end lines
+
+section multi
+variable (cfg : DocCfg) (Ls : List (List Char)) (pre R post : List Char) (k : Nat) (h : SpanLines Ls pre R post k)
+  (c1 c2 : List Inline.RuleId) (hic : cfg.inlineChain = .text :: (c1 ++ .backticks :: c2))
+  (hq : ∀ r ∈ c1, QuietTick r)
+  (bpre bpost : List Block.RuleId) (hbc : cfg.blockChain = bpre ++ .paragraph :: bpost) (hbp : .paragraph ∉ bpre)
+  (hmn : 0 < cfg.maxNesting)
+include h hic hq hbc hbp hmn
+
+omit hic hq in
+/-- the block pass: ONE paragraph over all the lines, inline text = the whole source, table `idTable 0 Ls` -/
+theorem blocks_lines :
+    parseBlocks cfg.blockCfg (docOf Ls) =
+      .ok (⟨.root, some (0, Lines.byteLen (docOf Ls)),
+        wrapForest (Lines.byteLen (docOf Ls)) [] 0
+          (paraLeaf (pre ++ rawSpan k R ++ post) (idTable 0 Ls) 0 0 (Lines.byteLen (docOf Ls)) (tightOf []))⟩, []) := by
+  obtain ⟨c, r, rest, hL, hc⟩ := h.first
+  have hnt := h.noTerm
+  have hcont := h.cont
+  rw [← h.doc]
+  subst hL
+  have := parseBlocks_lines hnt hc hcont (cfg := cfg.blockCfg) hbc hbp hmn
+  simpa [wrapForest, paraLeaf, tightOf, inlineRootAt, map_add_zero] using this
+
+omit hbc hbp hmn hic hq in
+theorem table_lines (a : Nat) :
+    InlineOps.getSourcePosFor ((idTable 0 Ls).map fun kv => (kv.1, kv.2 + 0)) a = .ok a := by
+  obtain ⟨c, r, rest, hL, hc⟩ := h.first
+  rw [map_add_zero, hL]
+  exact idTable_translate _ _ a
+
+/-- **`doc_span_multiline`, any `sourcepos`.**  The document `docOf Ls` (`SpanLines`: `n ≥ 1` lines forming one
+    top-level paragraph `pre ++ `ᵏ⁺¹ R `ᵏ⁺¹ ++ post`, the span opening on the first line and closing on the last) parses
+    to `Root[Paragraph[…]]`, root and paragraph over the whole source; the paragraph's children (`rawNodes`, every
+    range the byte range in the source): the `Text` node of `pre`, ONE `CodeInline` node over the whole span — all
+    its lines — whose single child is the `Text` node holding `spanContent R`: `R` with every line feed turned
+    into ONE space (nothing else: indentation of continuation lines and blanks in front of a line feed stay) and
+    one pair of padding spaces removed (`strip_char`); the `Text` node of `post`. -/
+theorem doc_span_multiline_sp :
+    parseDoc cfg (docOf Ls) =
+      .ok ⟨.blk .root, some (0, Lines.byteLen (docOf Ls)), spAttrs cfg (docOf Ls) (0, Lines.byteLen (docOf Ls)),
+        [⟨.blk .paragraph, some (0, Lines.byteLen (docOf Ls)), spAttrs cfg (docOf Ls) (0, Lines.byteLen (docOf Ls)),
+          rawNodes (spAttrs cfg (docOf Ls)) (fun a => a) k pre R post⟩]⟩ := by
+  have := parseDoc_of_blocks_raw cfg _ pre R post k h.plainPre h.plainPost h.raw h.trim c1 c2 hic hq hmn [] _ 0
+    (idTable 0 Ls) (fun a => a) (table_lines Ls pre R post k h)
+    (blocks_lines cfg Ls pre R post k h bpre bpost hbc hbp hmn)
+  simpa [wrapForestN, spanLeaf, tightOf] using this
+
+/-- **`doc_span_multiline`** (no `sourcepos` plugin): the tree, exactly, no attributes anywhere -/
+theorem doc_span_multiline (hsp : cfg.sourcepos = false) :
+    parseDoc cfg (docOf Ls) =
+      .ok ⟨.blk .root, some (0, Lines.byteLen (docOf Ls)), [],
+        [⟨.blk .paragraph, some (0, Lines.byteLen (docOf Ls)), [],
+          rawNodes (fun _ => []) (fun a => a) k pre R post⟩]⟩ := by
+  have := doc_span_multiline_sp cfg Ls pre R post k h c1 c2 hic hq bpre bpost hbc hbp hmn
+  rw [spAttrs_off hsp] at this
+  exact this
+
+/-- **`doc_span_multiline_render`, any `sourcepos`**: `<p ATTRS>`, escaped `pre`, `<code ATTRS>`, escaped content,
+    `</code>`, escaped `post`, `</p>`, LF; then the serializer's NUL replacement -/
+theorem doc_span_multiline_render_sp (x : Bool) :
+    renderDoc x cfg (docOf Ls) =
+      .ok (Render.replaceNul
+        (openTag tP (spAttrs cfg (docOf Ls) (0, Lines.byteLen (docOf Ls))) ++
+          inlHtml (spAttrs cfg (docOf Ls) (spanRange (fun a => a) k pre R)) pre (spanContent R) post ++
+          closeTag tP ++ ['\n'])) := by
+  have := renderDoc_of_blocks_raw cfg _ pre R post k h.plainPre h.plainPost h.raw h.trim c1 c2 hic hq hmn [] _ 0
+    (idTable 0 Ls) (fun a => a) (table_lines Ls pre R post k h)
+    (blocks_lines cfg Ls pre R post k h bpre bpost hbc hbp hmn) x
+  simpa [spanHtmlA] using this
+
+/-- **`doc_span_multiline_render`** (no `sourcepos` plugin), both serializers: the output is `<p>` `pre` `<code>`
+    content `</code>` `post` `</p>` LF — ONE paragraph, ONE code element —, content = `spanContent R`: the characters
+    of `R`, every line ending turned into one space, one pair of padding spaces removed; exactly `& < > "` escaped,
+    NUL replaced by U+FFFD; nothing inside is interpreted -/
+theorem doc_span_multiline_render (hsp : cfg.sourcepos = false) (x : Bool) :
+    renderDoc x cfg (docOf Ls) =
+      .ok ("<p>".toList ++ codeHtml (Render.nulStr pre) (Render.nulStr (spanContent R)) (Render.nulStr post) ++
+        "</p>\n".toList) := by
+  have := renderDoc_of_blocks_raw cfg _ pre R post k h.plainPre h.plainPost h.raw h.trim c1 c2 hic hq hmn [] _ 0
+    (idTable 0 Ls) (fun a => a) (table_lines Ls pre R post k h)
+    (blocks_lines cfg Ls pre R post k h bpre bpost hbc hbp hmn) x
+  have := plain_html cfg _ hsp x _ 0 _ pre (spanContent R) post [] _ this
+  simpa [spanHtml] using this
+
+end multi
+
+/-! ## 5. the padded multi-line payload, spelled out -/
+
+/-- `a` in front of the first of the lines `ts`, `b` behind the last -/
+def glue (a : List Char) : List (List Char) → List Char → List (List Char)
+  | [], b => [a ++ b]
+  | [t], b => [a ++ t ++ b]
+  | t :: u :: r, b => (a ++ t) :: glue [] (u :: r) b
+
+theorem glue_ne_nil (a : List Char) (ts : List (List Char)) (b : List Char) : glue a ts b ≠ [] := by
+  match ts with
+  | [] => simp [glue]
+  | [t] => simp [glue]
+  | t :: u :: r => simp [glue]
+
+theorem docOf_cons_ne (x : List Char) {L : List (List Char)} (hL : L ≠ []) :
+    docOf (x :: L) = x ++ '\n' :: docOf L := by
+  cases L with
+  | nil => exact absurd rfl hL
+  | cons y ys => rfl
+
+theorem docOf_glue : ∀ (ts : List (List Char)) (a b : List Char), docOf (glue a ts b) = a ++ docOf ts ++ b
+  | [], a, b => by simp [glue, docOf, Lines.joinLines]
+  | [t], a, b => by simp [glue, docOf, Lines.joinLines]
+  | t :: u :: r, a, b => by
+    have ih := docOf_glue (u :: r) [] b
+    rw [glue, docOf_cons_ne _ (glue_ne_nil _ _ _), ih, docOf_cons_ne t (by simp)]
+    simp
+
+theorem noTerm_glue : ∀ (ts : List (List Char)) (a b : List Char), NoTerm a → NoTerm b → (∀ t ∈ ts, NoTerm t) →
+    ∀ l ∈ glue a ts b, NoTerm l
+  | [], a, b, ha, hb, _, l, hl => by
+    simp only [glue, List.mem_singleton] at hl; subst hl; exact noTerm_append ha hb
+  | [t], a, b, ha, hb, ht, l, hl => by
+    simp only [glue, List.mem_singleton] at hl; subst hl
+    exact noTerm_append (noTerm_append ha (ht t (by simp))) hb
+  | t :: u :: r, a, b, ha, hb, ht, l, hl => by
+    simp only [glue, List.mem_cons] at hl
+    rcases hl with rfl | hl
+    · exact noTerm_append ha (ht t (by simp))
+    · exact noTerm_glue (u :: r) [] b (by intro c hc; simp at hc) hb
+        (fun x hx => ht x (List.mem_cons_of_mem _ hx)) l (by simpa [glue] using hl)
+
+/-- the lines of the document `pre `ᵏ⁺¹ ␠ t₁ ⏎ t₂ ⏎ … ⏎ t_m ␠ `ᵏ⁺¹ post`: the padded span over the payload lines `ts` -/
+def paddedLines (pre : List Char) (k : Nat) (ts : List (List Char)) (post : List Char) : List (List Char) :=
+  glue (pre ++ ticks k ++ [' ']) ts (' ' :: ticks k ++ post)
+
+theorem docOf_paddedLines (pre : List Char) (k : Nat) (ts : List (List Char)) (post : List Char) :
+    docOf (paddedLines pre k ts post) = pre ++ rawSpan k (' ' :: docOf ts ++ [' ']) ++ post := by
+  rw [paddedLines, docOf_glue]
+  simp [rawSpan]
+
+/-- a run of `m` cannot cross a character `c ≠ m` -/
+theorem infix_split {m c : Char} {n : Nat} (hn : 0 < n) (hc : c ≠ m) {a b : List Char}
+    (h : List.replicate n m <:+: a ++ c :: b) : List.replicate n m <:+: a ∨ List.replicate n m <:+: b := by
+  obtain ⟨p, q, hpq⟩ := h
+  obtain ⟨j, rfl⟩ : ∃ j, n = j + 1 := ⟨n - 1, by omega⟩
+  rw [List.append_assoc] at hpq
+  rcases List.append_eq_append_iff.mp hpq with ⟨a', ha, hr⟩ | ⟨c', hp, hr⟩
+  · rcases List.append_eq_append_iff.mp hr with ⟨a'', ha', _⟩ | ⟨c', hrep, hr'⟩
+    · left; exact ⟨p, a'', by rw [ha, ha']; simp⟩
+    · cases c' with
+      | nil => left; exact ⟨p, [], by rw [ha, hrep]; simp⟩
+      | cons d t =>
+        simp only [List.cons_append, List.cons.injEq] at hr'
+        have : c ∈ List.replicate (j + 1) m := by rw [hrep, hr'.1]; simp
+        exact absurd (List.mem_replicate.mp this).2 hc
+  · cases c' with
+    | nil =>
+      simp only [List.nil_append, List.replicate_succ, List.cons_append, List.cons.injEq] at hr
+      exact absurd hr.1 hc
+    | cons d t =>
+      simp only [List.cons_append, List.cons.injEq] at hr
+      right; exact ⟨t, q, by rw [hr.2]; simp⟩
+
+/-- no line of `ts` holds a run of `n` markers: neither does the joined payload (a run cannot cross a line feed) -/
+theorem runs_docOf {m : Char} {n : Nat} (hn : 0 < n) (hm : m ≠ '\n') :
+    ∀ (ts : List (List Char)), (∀ t ∈ ts, ¬ List.replicate n m <:+: t) → ¬ List.replicate n m <:+: docOf ts
+  | [], _ => by
+    intro ⟨p, q, h⟩
+    obtain ⟨k, rfl⟩ : ∃ k, n = k + 1 := ⟨n - 1, by omega⟩
+    simp [docOf, Lines.joinLines, List.replicate_succ] at h
+  | [t], h => by simpa [docOf, Lines.joinLines] using h t (by simp)
+  | t :: u :: r, h => by
+    intro hi
+    simp only [docOf, Lines.joinLines] at hi
+    rcases infix_split hn (Ne.symm hm) hi with h1 | h1
+    · exact h t (by simp) h1
+    · exact runs_docOf hn hm (u :: r) (fun x hx => h x (List.mem_cons_of_mem _ hx)) h1
+/-- the hypotheses of `doc_span_multiline` for the padded payload `ts`, from hypotheses on the pieces -/
+theorem spanLines_padded (pre post : List Char) (k : Nat) (ts : List (List Char))
+    (hfirst : ∃ c r, pre = c :: r ∧ ParaFirst c) (hpre : PlainTxt pre) (hpost : PlainTxt post)
+    (hpreCR : '\r' ∉ pre) (hpostCR : '\r' ∉ post) (hend : ∀ c ∈ post.getLast?, Inline.isSpTab c = false)
+    (hts : ∀ t ∈ ts, NoTerm t) (hne : docOf ts ≠ []) (hruns : ∀ t ∈ ts, ¬ List.replicate (k + 1) '`' <:+: t)
+    (hcont : ∀ l ∈ (paddedLines pre k ts post).tail, ContLine l) :
+    SpanLines (paddedLines pre k ts post) pre (' ' :: docOf ts ++ [' ']) post k := by
+  have hsp : NoTerm [' '] := by intro c hc; simp at hc; subst hc; decide
+  refine ⟨?_, ?_, hcont, docOf_paddedLines pre k ts post, hpre, hpost, hend, ?_⟩
+  · obtain ⟨c, r, hp, hc⟩ := hfirst
+    subst hp
+    match ts with
+    | [] => exact ⟨c, _, [], by simp only [paddedLines, glue, List.cons_append]; rfl, hc⟩
+    | [t] => exact ⟨c, _, [], by simp only [paddedLines, glue, List.cons_append]; rfl, hc⟩
+    | t :: u :: r' => exact ⟨c, _, _, by simp only [paddedLines, glue, List.cons_append]; rfl, hc⟩
+  · exact noTerm_glue ts _ _ (noTerm_append (noTerm_append (noTerm_plain hpre hpreCR) (noTerm_ticks k)) hsp)
+      (noTerm_append (noTerm_append hsp (noTerm_ticks k)) (noTerm_plain hpost hpostCR)) hts
+  · refine ⟨by simp, by simp, ?_, ?_⟩
+    · rw [show ' ' :: docOf ts ++ [' '] = (' ' :: docOf ts) ++ [' '] by simp, List.getLast?_concat]; simp
+    · exact CodePair.no_early_close (by omega) (by decide) (runs_docOf (by omega) (by decide) ts hruns)
+
+section payload
+variable (cfg : DocCfg) (pre post : List Char) (k : Nat) (ts : List (List Char))
+  (h : SpanLines (paddedLines pre k ts post) pre (' ' :: docOf ts ++ [' ']) post k)
+  (hts : ∀ t ∈ ts, NoTerm t) (hne : docOf ts ≠ [])
+  (c1 c2 : List Inline.RuleId) (hic : cfg.inlineChain = .text :: (c1 ++ .backticks :: c2))
+  (hq : ∀ r ∈ c1, QuietTick r)
+  (bpre bpost : List Block.RuleId) (hbc : cfg.blockChain = bpre ++ .paragraph :: bpost) (hbp : .paragraph ∉ bpre)
+  (hmn : 0 < cfg.maxNesting) (hsp : cfg.sourcepos = false)
+include h hts hne hic hq hbc hbp hmn hsp
+
+/-- **`doc_span_padded_lines`** (no `sourcepos` plugin).  The document
+    `pre `ᵏ⁺¹ ␠ t₁ ⏎ t₂ ⏎ … ⏎ t_m ␠ `ᵏ⁺¹ post` (`paddedLines`, hypotheses `spanLines_padded`): ONE paragraph, ONE
+    `CodeInline` node over the whole span whose text child is `t₁ ␠ t₂ ␠ … ␠ t_m` (`spaced ts`: each line ending
+    turned into ONE space, every line whole — indentation and trailing blanks included) over exactly the bytes
+    of the payload (between the padding spaces) -/
+theorem doc_span_padded_lines :
+    parseDoc cfg (docOf (paddedLines pre k ts post)) =
+      .ok ⟨.blk .root, some (0, Lines.byteLen (docOf (paddedLines pre k ts post))), [],
+        [⟨.blk .paragraph, some (0, Lines.byteLen (docOf (paddedLines pre k ts post))), [],
+          txtR (fun _ => []) (0, Lines.byteLen pre) pre ++
+          [codeR (fun _ => []) k
+            (Lines.byteLen pre, Lines.byteLen pre + (2 * (k + 1) + (Lines.byteLen (docOf ts) + 2)))
+            (Lines.byteLen pre + (k + 1) + 1, Lines.byteLen pre + (k + 1) + 1 + Lines.byteLen (docOf ts))
+            (spaced ts)] ++
+          txtR (fun _ => []) (Lines.byteLen pre + (2 * (k + 1) + (Lines.byteLen (docOf ts) + 2)),
+            Lines.byteLen pre + (2 * (k + 1) + (Lines.byteLen (docOf ts) + 2)) + Lines.byteLen post) post⟩]⟩ := by
+  have := doc_span_multiline cfg _ pre _ post k h c1 c2 hic hq bpre bpost hbc hbp hmn hsp
+  obtain ⟨h1, h2⟩ := strip_lines ts hts hne
+  have hb : Lines.byteLen (' ' :: docOf ts ++ [' ']) = Lines.byteLen (docOf ts) + 2 := by
+    simp only [C05I.linesLen_eq, InlineOps.byteLen, C05.byteLen_append, show ' '.utf8Size = 1 by decide]
+    omega
+  have he : Lines.byteLen pre + (k + 1) + (Lines.byteLen (docOf ts) + 2) - 1 =
+      Lines.byteLen pre + (k + 1) + 1 + Lines.byteLen (docOf ts) := by omega
+  simp only [rawNodes, spanRange, innerRange, h1, h2, hb, he] at this
+  exact this
+
+/-- **`doc_span_padded_lines_render`**, both serializers: `<p>` `pre` `<code>` `t₁ ␠ t₂ ␠ … ␠ t_m` `</code>` `post` `</p>`
+    LF, with exactly `& < > "` escaped and NUL replaced by U+FFFD -/
+theorem doc_span_padded_lines_render (x : Bool) :
+    renderDoc x cfg (docOf (paddedLines pre k ts post)) =
+      .ok ("<p>".toList ++ codeHtml (Render.nulStr pre) (Render.nulStr (spaced ts)) (Render.nulStr post) ++
+        "</p>\n".toList) := by
+  have := doc_span_multiline_render cfg _ pre _ post k h c1 c2 hic hq bpre bpost hbc hbp hmn hsp x
+  rw [(strip_lines ts hts hne).1] at this
+  exact this
+
+end payload
+
+/-! ## 6. instances on the stock chains, and the necessity of the hypotheses -/
+
+section examples
+
+/-- the payloads of the examples -/
+def exR : List Char := "x\ny <b>\nz".toList
+def exR1 : List Char := "x ` <i>".toList
+
+def stockPre : List Block.RuleId := [.code, .fence, .blockquote, .hr, .list, .reference, .heading, .lheading]
+
+/-- the three-line document ``a ``x ⏎ y <b> ⏎ z`` w`` (unpadded): `pre = "a "`, `R = "x⏎y <b>⏎z"`, `post = " w"` -/
+def exLs : List (List Char) := ["a ``x".toList, "y <b>".toList, "z`` w".toList]
+
+theorem exLines : SpanLines exLs "a ".toList exR " w".toList 1 :=
+  ⟨⟨'a', _, _, rfl, by decide⟩, by decide +kernel, by decide +kernel, by decide +kernel, by decide, by decide,
+    by decide, by decide +kernel⟩
+
+/-- `doc_span_multiline_render` applies on the stock configuration (both serializers) … -/
+example (x : Bool) : renderDoc x (exCfg false 100) (docOf exLs) =
+    .ok ("<p>".toList ++ codeHtml (Render.nulStr "a ".toList) (Render.nulStr (spanContent exR))
+      (Render.nulStr " w".toList) ++ "</p>\n".toList) :=
+  doc_span_multiline_render (exCfg false 100) _ _ _ _ 1 exLines [.newline, .escape] _ rfl quietTick_stock
+    stockPre [] rfl (by decide) (by decide) rfl x
+
+/-- … and that is: the document, and the output — each line ending one space, `<b>` escaped, nothing interpreted -/
+example : docOf exLs = "a ``x\ny <b>\nz`` w".toList ∧
+    "<p>".toList ++ codeHtml (Render.nulStr "a ".toList) (Render.nulStr (spanContent exR))
+      (Render.nulStr " w".toList) ++ "</p>\n".toList = "<p>a <code>x y &lt;b&gt; z</code> w</p>\n".toList := by
+  decide +kernel
+
+/-- the tree of `doc_span_multiline`: `Root[Paragraph[Text "a ", CodeInline[Text "x y <b> z"], Text " w"]]` — the
+    span over bytes 2 .. 15 (three lines), the content over bytes 4 .. 13 -/
+example : parseDoc (exCfg false 100) (docOf exLs) =
+    .ok ⟨.blk .root, some (0, 17), [],
+      [⟨.blk .paragraph, some (0, 17), [],
+        [⟨.inl (.text ['a', ' ']), some (0, 2), [], []⟩,
+         ⟨.inl (.codeInline '`' 2), some (2, 15), [],
+           [⟨.inl (.text ['x', ' ', 'y', ' ', '<', 'b', '>', ' ', 'z']), some (4, 13), [], []⟩]⟩,
+         ⟨.inl (.text [' ', 'w']), some (15, 17), [], []⟩]⟩]⟩ := by
+  have h := doc_span_multiline (exCfg false 100) _ _ _ _ 1 exLines [.newline, .escape] _ rfl quietTick_stock
+    stockPre [] rfl (by decide) (by decide) rfl
+  have hE : Lines.byteLen (docOf exLs) = 17 := by decide +kernel
+  have e0 : "a ".toList = ['a', ' '] ∧ " w".toList = [' ', 'w'] := by decide
+  have e1 : Lines.byteLen ['a', ' '] = 2 ∧ Lines.byteLen exR = 9 ∧ Lines.byteLen [' ', 'w'] = 2 := by
+    decide +kernel
+  have e2 : spanContent exR = ['x', ' ', 'y', ' ', '<', 'b', '>', ' ', 'z'] ∧
+      padW exR = 0 := by decide +kernel
+  rw [h, hE, e0.1, e0.2]
+  simp [rawNodes, txtR, codeR, spanRange, innerRange, e1.1, e1.2.1, e1.2.2, e2.1, e2.2]
+
+/-- the PADDED payload over three lines, the second one indented and with trailing blanks, the third one markup,
+    an entity and emphasis: `doc_span_padded_lines_render` applies — the continuation line's indentation and the
+    blanks in front of the line feed STAY in the content (CommonMark strips the indentation) -/
+def exTs : List (List Char) := ["x".toList, "   y  ".toList, "<b>&amp;*z*".toList]
+
+example (x : Bool) : renderDoc x (exCfg false 100) (docOf (paddedLines "a ".toList 1 exTs " w".toList)) =
+    .ok ("<p>".toList ++ codeHtml (Render.nulStr "a ".toList) (Render.nulStr (spaced exTs)) (Render.nulStr " w".toList) ++
+      "</p>\n".toList) :=
+  doc_span_padded_lines_render (exCfg false 100) _ _ 1 exTs
+    (spanLines_padded _ _ 1 exTs ⟨'a', _, rfl, by decide⟩ (by decide) (by decide) (by decide) (by decide) (by decide)
+      (by decide +kernel) (by decide +kernel) (by decide +kernel) (by decide +kernel))
+    (by decide +kernel) (by decide +kernel) [.newline, .escape] _ rfl quietTick_stock stockPre [] rfl (by decide) (by decide) rfl x
+
+example : docOf (paddedLines "a ".toList 1 exTs " w".toList) = "a `` x\n   y  \n<b>&amp;*z* `` w".toList ∧
+    "<p>".toList ++ codeHtml (Render.nulStr "a ".toList) (Render.nulStr (spaced exTs)) (Render.nulStr " w".toList) ++
+      "</p>\n".toList = "<p>a <code>x    y   &lt;b&gt;&amp;amp;*z*</code> w</p>\n".toList := by
+  decide +kernel
+
+/-- a continuation line indented by 4 columns or more continues the paragraph whatever it starts with
+    (`ContLine`, first alternative): `- y` behind five blanks is payload -/
+example : ContLine "     - y``".toList ∧
+    renderDoc false (exCfg false 100) "a ``x\n     - y``".toList = .ok "<p>a <code>x      - y</code></p>\n".toList := by
+  decide +kernel
+
+/-- `ContLine` is needed, per line: a continuation line that starts a list item (`- y`), is a setext underline
+    (`===`), opens a fence, or is blank ENDS the paragraph — and with it the span: the backtick runs are literal
+    text, the "payload" is interpreted (the model; the crate agrees) -/
+example : ¬ ContLine "- y``".toList ∧ ¬ ContLine "===".toList ∧ ¬ ContLine "```".toList ∧ ¬ ContLine " ".toList ∧
+    renderDoc false (exCfg false 100) "a ``x\n- y``".toList = .ok "<p>a ``x</p>\n<ul>\n<li>y``</li>\n</ul>\n".toList ∧
+    renderDoc false (exCfg false 100) "a ``x\n===\ny``".toList = .ok "<h1>a ``x</h1>\n<p>y``</p>\n".toList ∧
+    renderDoc false (exCfg false 100) "a ``x\n```\ny``".toList =
+      .ok "<p>a ``x</p>\n<pre><code>y``\n</code></pre>\n".toList ∧
+    renderDoc false (exCfg false 100) "a ``x\n \ny``".toList = .ok "<p>a ``x</p>\n<p>y``</p>\n".toList := by
+  decide +kernel
+
+/-- … while `=y` (not an underline) and a line indented by up to three columns continue it -/
+example : ContLine "=y``".toList ∧ ContLine "   y``".toList ∧
+    renderDoc false (exCfg false 100) "a ``x\n=y``".toList = .ok "<p>a <code>x =y</code></p>\n".toList := by
+  decide +kernel
+
+/-- ONE line, UNPADDED: `doc_span_unpadded_render` applies — `` a ``x ` <i>`` b `` -/
+theorem exRaw : RawLine "a ".toList exR1 " b".toList 1 :=
+  ⟨⟨'a', _, rfl, by decide⟩, by decide, by decide, by decide, by decide, by decide, by decide +kernel, by decide⟩
+
+example (x : Bool) : renderDoc x (exCfg false 100) ("a ".toList ++ rawSpan 1 exR1 ++ " b".toList) =
+    .ok ("<p>".toList ++ codeHtml (Render.nulStr "a ".toList) (Render.nulStr exR1) (Render.nulStr " b".toList) ++
+      "</p>\n".toList) :=
+  doc_span_unpadded_render (exCfg false 100) _ _ _ 1 exRaw [.newline, .escape] _ rfl quietTick_stock
+    stockPre [] rfl (by decide) (by decide) rfl (by decide) x
+
+example : "a ".toList ++ rawSpan 1 exR1 ++ " b".toList = "a ``x ` <i>`` b".toList ∧
+    "<p>".toList ++ codeHtml (Render.nulStr "a ".toList) (Render.nulStr exR1) (Render.nulStr " b".toList) ++
+      "</p>\n".toList = "<p>a <code>x ` &lt;i&gt;</code> b</p>\n".toList := by decide +kernel
+
+/-- the tree of `doc_span_unpadded`: the text child ranges over all of `R` (bytes 4 .. 11) -/
+example : parseDoc (exCfg false 100) ("a ".toList ++ rawSpan 1 exR1 ++ " b".toList) =
+    .ok ⟨.blk .root, some (0, 15), [],
+      [⟨.blk .paragraph, some (0, 15), [],
+        [⟨.inl (.text ['a', ' ']), some (0, 2), [], []⟩,
+         ⟨.inl (.codeInline '`' 2), some (2, 13), [], [⟨.inl (.text exR1), some (4, 11), [], []⟩]⟩,
+         ⟨.inl (.text [' ', 'b']), some (13, 15), [], []⟩]⟩]⟩ := by
+  have h := doc_span_unpadded (exCfg false 100) _ _ _ 1 exRaw [.newline, .escape] _ rfl quietTick_stock
+    stockPre [] rfl (by decide) (by decide) rfl (by decide)
+  have hE : Lines.byteLen ("a ".toList ++ rawSpan 1 exR1 ++ " b".toList) = 15 := by decide +kernel
+  have e0 : "a ".toList = ['a', ' '] ∧ " b".toList = [' ', 'b'] := by decide
+  have e1 : Lines.byteLen ['a', ' '] = 2 ∧ Lines.byteLen exR1 = 7 ∧ Lines.byteLen [' ', 'b'] = 2 := by
+    decide +kernel
+  rw [h, hE, e0.1, e0.2]
+  simp [txtR, codeR, e1.1, e1.2.1, e1.2.2]
+
+/-- the stripping rule on one line (`doc_span_raw_render`): a space at one end only stays (`` ` x` ``), a pair goes
+    (`` ` x ` ``), only ONE pair goes (`` `  x  ` ``), two spaces stay, THREE spaces lose a pair (CommonMark: an
+    all-space content is not stripped — `<code>   </code>`; the crate, checked: `<code> </code>`) -/
+example : renderDoc false (exCfg false 100) "a ` x` b".toList = .ok "<p>a <code> x</code> b</p>\n".toList ∧
+    renderDoc false (exCfg false 100) "a ` x ` b".toList = .ok "<p>a <code>x</code> b</p>\n".toList ∧
+    renderDoc false (exCfg false 100) "a `  x  ` b".toList = .ok "<p>a <code> x </code> b</p>\n".toList ∧
+    renderDoc false (exCfg false 100) "a `  ` b".toList = .ok "<p>a <code>  </code> b</p>\n".toList ∧
+    renderDoc false (exCfg false 100) "a `   ` b".toList = .ok "<p>a <code> </code> b</p>\n".toList := by
+  decide +kernel
+
+/-- … and these are instances of the theorem: `R = "   "` is `RawOk`, its content is one space -/
+example (x : Bool) : renderDoc x (exCfg false 100) ("a ".toList ++ rawSpan 0 "   ".toList ++ " b".toList) =
+    .ok ("<p>".toList ++ codeHtml (Render.nulStr "a ".toList) (Render.nulStr (spanContent "   ".toList))
+      (Render.nulStr " b".toList) ++ "</p>\n".toList) ∧ spanContent "   ".toList = [' '] :=
+  ⟨doc_span_raw_render (exCfg false 100) _ _ _ 0
+    ⟨⟨'a', _, rfl, by decide⟩, by decide, by decide, by decide, by decide, by decide, by decide +kernel, by decide⟩
+    [.newline, .escape] _ rfl quietTick_stock stockPre [] rfl (by decide) (by decide) rfl x, by decide +kernel⟩
+
+/-- a line feed at either end of the content counts as a space for the stripping test (LF → space comes first):
+    `` `⏎x⏎` `` gives `x` -/
+example : renderDoc false (exCfg false 100) "a `\nx\n` b".toList = .ok "<p>a <code>x</code> b</p>\n".toList ∧
+    renderDoc false (exCfg false 100) "a `\nx` b".toList = .ok "<p>a <code> x</code> b</p>\n".toList := by
+  decide +kernel
+
+/-- `doc_span_raw_render_nested` applies: the unpadded span in a bullet item in a block quote -/
+example (x : Bool) :
+    renderDoc x (exCfg false 100) (wrapAll [.quote, .bullet '-'] ("a ".toList ++ rawSpan 1 exR1 ++ " b".toList)) =
+      .ok (spanHtml [.quote, .bullet '-']
+        (codeHtml (Render.nulStr "a ".toList) (Render.nulStr (spanContent exR1)) (Render.nulStr " b".toList))) :=
+  doc_span_raw_render_nested (exCfg false 100) _ _ _ 1 exRaw (by decide +kernel) [.newline, .escape] _ rfl quietTick_stock
+    stockPre [] rfl (by decide) [.quote, .bullet '-'] (by decide) (chainFor_stock _) (by decide) (by decide +kernel) rfl x
+
+example : wrapAll [.quote, .bullet '-'] ("a ".toList ++ rawSpan 1 exR1 ++ " b".toList) =
+      "> - a ``x ` <i>`` b".toList ∧
+    spanHtml [.quote, .bullet '-']
+      (codeHtml (Render.nulStr "a ".toList) (Render.nulStr (spanContent exR1)) (Render.nulStr " b".toList)) =
+      "<blockquote>\n<ul>\n<li>a <code>x ` &lt;i&gt;</code> b</li>\n</ul>\n</blockquote>\n".toList := by
+  decide +kernel
+
+/-- `RawOk` is needed: a content that begins with a backtick makes the opening run longer (no closer of that
+    length: no span), a run of `k + 1` backticks inside closes early -/
+example : ¬ CodePair.RawOk '`' 1 "`x".toList ∧ ¬ CodePair.RawOk '`' 1 "x``y".toList ∧
+    renderDoc false (exCfg false 100) ("a ".toList ++ rawSpan 1 "`x".toList ++ " b".toList) = .ok "<p>a ```x`` b</p>\n".toList ∧
+    renderDoc false (exCfg false 100) ("a ".toList ++ rawSpan 1 "x``y".toList ++ " b".toList) =
+      .ok "<p>a <code>x</code>y`` b</p>\n".toList := by
+  decide +kernel
+
+/-- with the `sourcepos` plugin (`doc_span_multiline_render_sp`): the `CodeInline` node carries the position of the
+    whole three-line span, 1:3 – 3:3 -/
+example : renderDoc false (exCfg true 100) (docOf exLs) =
+    .ok ("<p data-sourcepos=\"1:1-3:5\">a <code data-sourcepos=\"1:3-3:3\">x y &lt;b&gt; z</code> w</p>\n").toList := by
+  decide +kernel
+
+/-- no blank at the end of the last line (`postEnd`) is a restriction of the statement, not of the behaviour: the
+    inline parser's `trim_src` drops it -/
+example : renderDoc false (exCfg false 100) "a ``x
+y`` w ".toList = .ok "<p>a <code>x y</code> w</p>
+".toList := by
+  decide +kernel
+
+/-- multi-line spans inside containers are NOT covered by the theorems (OPEN below); by evaluation: the prefixes
+    are gone before the inline parser runs, a lazy continuation line works too -/
+example : renderDoc false (exCfg false 100) "> a ``x\n> y``".toList =
+      .ok "<blockquote>\n<p>a <code>x y</code></p>\n</blockquote>\n".toList ∧
+    renderDoc false (exCfg false 100) "> a ``x\ny``".toList =
+      .ok "<blockquote>\n<p>a <code>x y</code></p>\n</blockquote>\n".toList ∧
+    renderDoc false (exCfg false 100) "- a ``x\n  y``".toList = .ok "<ul>\n<li>a <code>x y</code></li>\n</ul>\n".toList := by
+  decide +kernel
+
+end examples
+
+/-
+OPEN:
+  1. `doc_span_multiline_nested`: the multi-line paragraph inside block quotes / list items (`wrapAll`-style
+     prefixes on EVERY line).  Missing lemma: the container analogue of `Block.parseBlocks_lines`, i.e.
+     `C11N.doc_para_blocks_nested` (Lemmas/C11Nested.lean; it takes the inner document's block result `hbase` and
+     `htight` and is stated for `Good [l]`, ONE line) for `Good Ls` with `n` lines: C06's `'> '`-prefix simulation
+     (`quote_commutes`) and the list-item simulation (`C06List`) are per line already; what is missing is the
+     induction over the lines in `bqScan` / `listLoop` for paragraph CONTINUATION lines, with the table
+     `[(p_j, p_j + widthAll w · (j + 1))]` (each line's prefix shifts the source offset once more).  The inline half
+     is ready: `C11M.parseInline_raw` takes ANY table with a total translation `tr`; `tr` would be
+     `a ↦ a + widthAll w · (line of a + 1)`, to be proved from `C05.translate_segment_free` as `idTable_translate`.
+  2. paragraphs with further lines in front of the opening line or behind the closing line (`pre` / `post` with
+     line feeds): `SpanLines` asks `PlainTxt pre`, `PlainTxt post`, which excludes LF.  Missing lemma: the
+     `newline` rule on `text ⏎ text` inside `C11M.tokLoop_plain` (one more iteration kind producing a `Softbreak`
+     node and skipping the next line's indentation); the block half (`parseBlocks_lines`) already covers it.
+-/
 
 end MdIt.C11M
